@@ -13,7 +13,8 @@ func u32p(v uint32) *uint32 { return &v }
 
 var jsonBodies = []string{`{"a":2}`, `{"a":0,"b":3}`, `{"a":1}`, `{"a":1,"b":{"c":2}}`, `{"n":null,"s":"x"}`, `{}`, `12`, `"str"`, `[1,2]`, `null`,
 	`{"a":{"z":[1]},"b":true}`, `{"b":{"c":{"d":5}},"q":"w"}`, `{"a":1,"zz":"0123456789012345678901234567890123456789"}`,
-	`{"s":"apple"}`, `{"s":"Banana","a":2}`, `{"s":"banana"}`, `{"s":"Apple1"}`, `{"s":"apple"}`}
+	`{"s":"apple"}`, `{"s":"Banana","a":2}`, `{"s":"banana"}`, `{"s":"Apple1"}`, `{"s":"apple"}`,
+	`{"a":10}`, `{"b":{}}`, `{"a":10}`} // eight bytes long: a length at which a BLOB can pass for SQLite's binary JSON
 var rawBodies = []string{`raw1`, `{notjson`, `7`, `{"a":1}`, `x y z`, ``}
 var xattrVals = []string{`{"rev":"1-a"}`, `{"cas":"x","n":{"m":1}}`, `"s"`, `5`, `[1]`, `true`, `{"b":2,"a":1}`, `{}`}
 var badXattrVals = []string{`{bad`, ``}
@@ -396,7 +397,7 @@ func genKv(r *rand.Rand, tier string) kvInput {
 			case "QXattrRev":
 				st.Arg = pick(r, []string{"1-a", "2-b"})
 			case "QBodyAEq":
-				st.Arg = pick(r, []string{"0", "1", "2"})
+				st.Arg = pick(r, []string{"0", "1", "2", "10"})
 			}
 			in.Ops = append(in.Ops, st)
 		case x >= 15 && x <= 16:
